@@ -67,6 +67,14 @@ func (e *exec) law(msg string) {
 	}
 }
 
+// noteWrite counts content writes that re-create a name deleted earlier / replace a live object.
+func (e *exec) noteWrite(b, n string, cur *model.Object) {
+	e.stats["content_writes"]++
+	if cur == nil && len(e.laws.Seen(b, n)) > 0 {
+		e.stats["recreations"]++
+	}
+}
+
 func (e *exec) touch(b, n string) { e.touched[b+"\x00"+n] = true }
 
 // flush adds the client's request counters and the executor's own statistics to the run.
@@ -197,8 +205,10 @@ func (e *exec) sendUpload(u *uploadSpec, r *common.Rand) (final *drive.Resp, sub
 	method := "PUT"
 	if (u.UseLocation || u.Post) && loc != "" && wellFormedRe.MatchString(u.Name) {
 		target = loc
+		e.stats["resumable_location_sessions"]++
 		if u.Post {
 			method = "POST"
+			e.stats["resumable_post_sessions"]++
 		}
 	}
 	e.stats["resumable_sessions"]++
@@ -394,10 +404,14 @@ func (e *exec) upload(u *uploadSpec, r *common.Rand) string {
 		}
 		o.Gen, o.Metagen = gen, metagen
 		o.Learned = model.ExtractFields(res)
+		e.noteWrite(u.Bucket, u.Name, cur)
 		e.law(e.laws.Write(u.Bucket, u.Name, gen, metagen))
 		e.headerAgrees("upload response", rsp, gen, metagen)
 		e.m.Put(u.Bucket, u.Name, o)
 		e.stats["uploads_ok"]++
+		if !u.Conds.Empty() {
+			e.stats["conditioned_passes"]++
+		}
 		if cur != nil {
 			e.stats["overwrites"]++
 		}
@@ -462,6 +476,9 @@ func (e *exec) del(b, n string, c model.Conds) string {
 		e.m.Del(b, n)
 		e.laws.Delete(b, n)
 		e.stats["deletes_ok"]++
+		if !c.Empty() {
+			e.stats["conditioned_passes"]++
+		}
 		return ""
 	}
 	e.mustSame = true
@@ -543,6 +560,9 @@ func (e *exec) patch(b, n string, fields map[string]any, c model.Conds) string {
 		next.Learned = model.ExtractFields(res)
 		e.m.Put(b, n, next)
 		e.stats["patches_ok"]++
+		if !c.Empty() {
+			e.stats["conditioned_passes"]++
+		}
 		return ""
 	}
 	e.mustSame = true
@@ -717,9 +737,13 @@ func (e *exec) compose(c *composeSpec) string {
 	}
 	o.Gen, o.Metagen = gen, metagen
 	o.Learned = got
+	e.noteWrite(c.Bucket, c.Dst, cur)
 	e.law(e.laws.Write(c.Bucket, c.Dst, gen, metagen))
 	e.m.Put(c.Bucket, c.Dst, o)
 	e.stats["composes_ok"]++
+	if !c.Conds.Empty() {
+		e.stats["conditioned_passes"]++
+	}
 	return ""
 }
 
@@ -752,7 +776,11 @@ func (e *exec) copyObj(sb, sn, db, dn string) string {
 		return "copy response is not a JSON object: " + err.Error()
 	}
 	for _, k := range []string{"totalBytesRewritten", "objectSize"} {
-		if n, ok := drive.Int64Field(doc, k); !ok || n != int64(len(src.Content)) {
+		n, ok := drive.Int64Field(doc, k)
+		if _, present := doc[k]; !present {
+			n, ok = 0, true // the JSON encoding omits zero values
+		}
+		if !ok || n != int64(len(src.Content)) {
 			return fmt.Sprintf("copy response %s=%v, want %d", k, doc[k], len(src.Content))
 		}
 	}
@@ -773,6 +801,7 @@ func (e *exec) copyObj(sb, sn, db, dn string) string {
 	}
 	o.Gen, o.Metagen = gen, metagen
 	o.Learned = model.ExtractFields(res)
+	e.noteWrite(db, dn, e.m.Get(db, dn))
 	e.law(e.laws.Write(db, dn, gen, metagen))
 	e.m.Put(db, dn, o)
 	e.stats["copies_ok"]++
